@@ -18,7 +18,9 @@ THEOREMS = [
 ]
 SHARD = 10
 RULE = ("registry DAGs of 3-6 registries of one flavour (chains of 3-5 with one or two alternative tops, diamonds, "
-        "diamonds with a tail), created in topological order; the same adapter keys / subscription keys are "
+        "diamonds with a tail, redundant-edge DAGs site(local, glob) with local(glob) whose indirect path is cut before "
+        "glob changes), created in topological order; sweeps visit the registries top-first, bottom-first or shuffled, "
+        "plus leaf-only sweeps right after a change (verifying registries in between have not looked yet); the same adapter keys / subscription keys are "
         "registered with registry-specific values in every member so that the nearest registry in C3 order decides; "
         "every round = one change (re-base at a rotating level incl. tops, middles and the bottom, or register / "
         "unregister / subscribe / unsubscribe in a random member) followed by a sweep of lookup / lookup1 / lookupAll / "
@@ -53,7 +55,10 @@ QUERY = ("lookup", "lookup1", "lookupAll", "names", "subscriptions", "queryAdapt
 
 def gen_dag(rng):
     """list of base lists; registry i only has bases < i (listed nearest-created first)."""
-    shape = rng.choice(["chain", "chain", "chain", "diamond", "diamond", "tail", "mixed"])
+    shape = rng.choice(["chain", "chain", "chain", "diamond", "diamond", "tail", "mixed", "redundant", "redundant"])
+    if shape == "redundant":
+        # redundant edge: 0 above, 1 glob, 2 local(glob), 3 site(local, glob) [, 4 below(site)]
+        return [[], [], [1], [2, 1]] + ([[3]] if rng.random() < 0.6 else [])
     if shape == "chain":
         alt = rng.choice([1, 1, 2])                # tops first: 0 (and 1) have no bases
         k = min(rng.choice([3, 4, 5]), 7 - alt)    # chain length, the top 0 included
@@ -88,10 +93,10 @@ def _reach(bases, x):
     return out
 
 
-def _sweep(rng, n_regs, akeys, skeys, rel, look_pool, ifaces, nobj, frac=1.0):
-    """the same query ops from every member (so that caches are warm on the next sweep)"""
+def _sweep(rng, regs, akeys, skeys, rel, look_pool, ifaces, nobj, frac=1.0):
+    """the same query ops from every member of [regs], in that order (so that caches are warm on the next sweep)"""
     ops = []
-    for r in range(n_regs):
+    for r in regs:
         if rng.random() > frac:
             continue
         for (req, p, nm) in akeys:
@@ -164,10 +169,17 @@ def gen_chain_case(rng, fl):
         req, p = sub_keys[k]
         return ["unsubscribe", r, req, p, None if rng.random() < 0.5 else value(r, 5 + k)]
 
-    def sweep(frac=1.0):
-        out = _sweep(rng, n, look_keys, slook_keys, rel, look_pool, ifaces, nobj, frac)
+    # the order in which a sweep visits the registries matters for the verifying flavour: a lookup on a
+    # middle registry refreshes IT; bottom-first sweeps and leaf-only sweeps query a leaf while the
+    # registries between it and a re-based one have not noticed anything yet
+    sweep_order = rng.choice([list(range(n)), list(range(n - 1, -1, -1)), list(range(n - 1, -1, -1)),
+                              rng.sample(range(n), n)])
+
+    def sweep(frac=1.0, regs=None):
+        regs = sweep_order if regs is None else regs
+        out = _sweep(rng, regs, look_keys, slook_keys, rel, look_pool, ifaces, nobj, frac)
         if nobj:
-            for r in range(n):
+            for r in regs:
                 if rng.random() > frac:
                     continue
                 for (_req, p, nm) in look_keys[:2]:
@@ -193,6 +205,24 @@ def gen_chain_case(rng, fl):
     # rounds
     cur = [list(bs) for bs in dag]
     level = rng.randrange(1, n)
+    leaves = [x for x in range(n) if not any(x in bs for bs in dag)] or [n - 1]
+    leaf_sweep = sweep(1.0, regs=[n - 1] if rng.random() < 0.6 else leaves)
+    if dag[:4] == [[], [], [1], [2, 1]]:
+        # redundant edge: cut the indirect path site -> local -> glob (the direct edge site -> glob stays),
+        # then change glob (registrations, subscriptions, its own __bases__) with warm caches below
+        ops.append(["setregbases", 2, rng.choice([[], [], [0]])])
+        cur[2] = ops[-1][2]
+        if rng.random() < 0.5:
+            ops += fixed_sweep
+        for _ in range(rng.choice([1, 2, 3])):
+            if rng.random() < 0.35:
+                ops.append(["setregbases", 1, [] if cur[1] else [0]])
+                cur[1] = ops[-1][2]
+                if rng.random() < 0.5:
+                    ops.append(mutation(0))
+            else:
+                ops.append(mutation(1))
+            ops += leaf_sweep if rng.random() < 0.4 else fixed_sweep
     for _ in range(rng.choice([3, 4, 5, 6])):
         what = rng.random()
         if what < 0.6:
@@ -210,6 +240,8 @@ def gen_chain_case(rng, fl):
                 ops.append(mutation(rng.choice(below) if below and rng.random() < 0.8 else None))
         else:
             ops.append(mutation())
+        if rng.random() < 0.4:
+            ops += leaf_sweep                   # from the bottom only: nobody in between has looked yet
         ops += fixed_sweep if rng.random() < 0.7 else sweep(0.6)
     if nobj and slook_keys and rng.random() < 0.25:
         # (the answer of ``subscribers`` carries a 999999 separator, expensive as a unary nat: rarely)
@@ -264,9 +296,11 @@ def gen_comp_case(rng):
             out.append(["registerSubscriptionAdapter", r, skey[0], skey[1], value(r, 6)])
         return out
 
+    corder = list(range(n)) if rng.random() < 0.5 else list(range(n - 1, -1, -1))
+
     def sweep():
         out = []
-        for r in range(n):
+        for r in corder:
             for (req, p, nm) in akeys:
                 if len(req) == 1:
                     out.append(["queryAdapter", r, qobj[(r, 0)], qp[(p, 0)], nm])
@@ -287,6 +321,11 @@ def gen_comp_case(rng):
     sw = sweep()
     cops += sw
     level = rng.randrange(1, n)
+    if dag[:4] == [[], [], [1], [2, 1]]:
+        cops.append(["setcbases", 2, rng.choice([[], [0]])])
+        cops += sw if rng.random() < 0.5 else []
+        cops += (fill(1) or [["registerUtility", 1, ukeys[0][0], ukeys[0][1], value(1, 3)]])[:2]
+        cops += sw
     for _ in range(rng.choice([3, 4, 5])):
         if rng.random() < 0.65:
             r = level
